@@ -630,7 +630,7 @@ private:
   template<typename BoolEnv>
   void transform_if(BoolEnv &env,
 		    std::function<bool(const typename BoolEnv::mapped_type &value)> pred,
-		    std::function<void(typename BoolEnv::mapped_type &value)> transform) {
+		    std::function<void(typename BoolEnv::mapped_type &value)> transform) const {
     if (env.is_top() || env.is_bottom()) {
       return;
     }
@@ -653,6 +653,63 @@ private:
   }
 
   
+  // Remove from env the remembered constraints that satisfy pred.
+  template<class BoolToCstEnv>
+  void remove_constraints_if(BoolToCstEnv &env,
+      std::function<bool(const typename BoolToCstEnv::mapped_type::element_t &)> pred) const {
+    using csts_t = typename BoolToCstEnv::mapped_type;
+    transform_if(env,
+		 [&pred](const csts_t &csts) {
+		   return std::any_of(csts.begin(), csts.end(), pred);
+		 },
+		 [&pred](csts_t &csts) {
+		   std::vector<typename csts_t::element_t> removed;
+		   std::copy_if(csts.begin(), csts.end(),
+				std::back_inserter(removed), pred);
+		   for (auto const &cst : removed) {
+		     csts -= cst;
+		   }
+		 });
+  }
+
+  // Mark v as unchanged from now on. If v was marked as possibly
+  // changed then the constraints over v that were remembered before
+  // talk about an old value of v. They are ignored as long as v is
+  // marked as possibly changed, so they must be removed before v is
+  // marked as unchanged again.
+  void mark_unchanged(const variable_t &v) {
+    if (!m_unchanged_vars.at(v)) {
+      auto mentions_v = [&v](const variable_t &w) { return w == v; };
+      remove_constraints_if(m_bool_to_lincsts,
+	  [&mentions_v](const linear_constraint_t &cst) {
+	    auto vars = cst.variables();
+	    return std::any_of(vars.begin(), vars.end(), mentions_v);
+	  });
+      remove_constraints_if(m_bool_to_refcsts,
+	  [&mentions_v](const reference_constraint_t &cst) {
+	    auto vars = cst.variables();
+	    return std::any_of(vars.begin(), vars.end(), mentions_v);
+	  });
+      m_unchanged_vars += v;
+    }
+  }
+
+  // Return env without the constraints that cannot be applied because
+  // some of their variables might have changed.
+  template<class BoolToCstEnv>
+  BoolToCstEnv applicable_constraints(const BoolToCstEnv &env) const {
+    BoolToCstEnv res(env);
+    remove_constraints_if(res,
+	[this](const typename BoolToCstEnv::mapped_type::element_t &cst) {
+	  auto vars = cst.variables();
+	  return !std::all_of(vars.begin(), vars.end(),
+			      [this](const variable_t &v) {
+				return m_unchanged_vars.at(v);
+			      });
+	});
+    return res;
+  }
+
   template<class BoolToCstEnv>
   void propagate_assign_bool_var(BoolToCstEnv &env,
 				 const variable_t &x, const variable_t &y,
@@ -868,12 +925,12 @@ private:
 	m_product.first().set_bool(x, boolean_value::top());
       }
       
-      m_bool_to_lincsts.set(x, lincst_set_t(cst));
       // We assume all variables in cst are unchanged unless the
       // opposite is proven
       for (auto const &v : cst.variables()) {
-	m_unchanged_vars += v;
+	mark_unchanged(v);
       }
+      m_bool_to_lincsts.set(x, lincst_set_t(cst));
     }
     m_bool_to_bools -= x;
   }
@@ -904,12 +961,12 @@ private:
 	  m_product.first().set_bool(x, boolean_value::top());
 	}
       }
-      m_bool_to_refcsts.set(x, refcst_set_t(cst));
       // We assume all variables in cst are unchanged unless the
       // opposite is proven
       for (auto const &v : cst.variables()) {
-	m_unchanged_vars += v;
+	mark_unchanged(v);
       }
+      m_bool_to_refcsts.set(x, refcst_set_t(cst));
     }
     m_bool_to_bools -= x;
 
@@ -1054,18 +1111,28 @@ public:
     return res;
   }
 
+  // The meet (and the narrowing) marks a variable as unchanged if it
+  // is unchanged in one of the operands. Thus, a constraint remembered
+  // by one operand that cannot be applied, because one of its
+  // variables might have changed in that operand, must be removed:
+  // otherwise it would become applicable if the other operand marks
+  // the variable as unchanged.
   bool_num_domain_t operator&(const bool_num_domain_t &other) const override {
     return bool_num_domain_t(m_product & other.m_product,
-                             m_bool_to_lincsts & other.m_bool_to_lincsts,
-                             m_bool_to_refcsts & other.m_bool_to_refcsts,
+                             applicable_constraints(m_bool_to_lincsts) &
+			     other.applicable_constraints(other.m_bool_to_lincsts),
+                             applicable_constraints(m_bool_to_refcsts) &
+			     other.applicable_constraints(other.m_bool_to_refcsts),
 			     m_bool_to_bools & other.m_bool_to_bools,
                              m_unchanged_vars & other.m_unchanged_vars);
   }
 
   void operator&=(const bool_num_domain_t &other) override {
     m_product &= other.m_product;
-    m_bool_to_lincsts = m_bool_to_lincsts & other.m_bool_to_lincsts;
-    m_bool_to_refcsts = m_bool_to_refcsts & other.m_bool_to_refcsts;
+    m_bool_to_lincsts = applicable_constraints(m_bool_to_lincsts) &
+                        other.applicable_constraints(other.m_bool_to_lincsts);
+    m_bool_to_refcsts = applicable_constraints(m_bool_to_refcsts) &
+                        other.applicable_constraints(other.m_bool_to_refcsts);
     m_bool_to_bools = m_bool_to_bools & other.m_bool_to_bools;
     m_unchanged_vars = m_unchanged_vars & other.m_unchanged_vars;
   }
@@ -1090,8 +1157,10 @@ public:
 
   bool_num_domain_t operator&&(const bool_num_domain_t &other) const override {
     return bool_num_domain_t(m_product && other.m_product,
-                             m_bool_to_lincsts && other.m_bool_to_lincsts,
-                             m_bool_to_refcsts && other.m_bool_to_refcsts,
+                             applicable_constraints(m_bool_to_lincsts) &&
+			     other.applicable_constraints(other.m_bool_to_lincsts),
+                             applicable_constraints(m_bool_to_refcsts) &&
+			     other.applicable_constraints(other.m_bool_to_refcsts),
 			     m_bool_to_bools && other.m_bool_to_bools,
                              m_unchanged_vars && other.m_unchanged_vars);
   }
@@ -1891,7 +1960,7 @@ public:
       // REVISIT: do nothing in m_bool_to_bools is not precise but sound.
     } else {
       if (m_unchanged_vars.at(x)) {
-	m_unchanged_vars += new_x;
+	mark_unchanged(new_x);
       }
     }
   }
